@@ -462,6 +462,16 @@ class SeqCheck:
                 f.write(small + "\n")
             violations.append(("spec", "oracle code %d" % code0, rp, False))
 
+        # differences that are listed known findings (classified by the component) are counted, not reported
+        rest = []
+        for d in diffs:
+            key = self.classify_known_diff(pid, d[0])
+            if key and (pid, key) in kf:
+                known_hits[key] = known_hits.get(key, 0) + 1
+            else:
+                rest.append(d)
+        diffs = rest
+
         # components whose theorem pins the answers uniquely (model answer = the only answer the
         # property allows on generated inputs): a difference is itself a failing input
         if diffs and self.diff_is_violation and not any(v[0] == "spec" for v in violations):
@@ -507,6 +517,10 @@ class SeqCheck:
             % (pid, total, ops_total, len(diffs), len(flagged), sum(known_hits.values()), coq["discharged"],
                coq["obligations"], time.time() - t0))
         return 1 if nv else 0
+
+    def classify_known_diff(self, pid, line):
+        """key of the known finding this differing history is an instance of, or None"""
+        return None
 
     def diff_is_mine(self, pid, diffs):
         return True
